@@ -26,7 +26,7 @@ import vlib
 
 LEVEL = "model_checking"
 TIERS = {
-    "quick": dict(cases="Quadratics.cfg", target=160, skeleton={"MaxEvents": "4"}, chunk=120000),
+    "quick": dict(cases="Quadratics.cfg", target=200, skeleton={"MaxEvents": "4"}, chunk=120000),
     "thorough": dict(cases="Quadratics_thorough.cfg", target=1500, skeleton={"MaxEvents": "9"}, chunk=150000),
 }
 # routines that must show a return justified by their stopping condition alone (vacuity)
@@ -208,6 +208,8 @@ def report(ctx, rejections, runs, trace, mode="run"):
     for rj in rejections:
         r = by_run[rj["run"]]
         sig = {"engine": "optim", "routine": r["routine"], "what": rj["why"], "cons": r["cons"], "family": r["family"]}
+        if "optclass" in r:
+            sig["optclass"] = r["optclass"]
         info = {k: v for k, v in r.items() if k not in ("kind",)}
         ctx.violation(sig, {"mode": mode, "key": r["key"], "seed": ctx.seed, "tier": ctx.tier, "rejected_event": rj["e"],
                             "why": rj["why"], "run_info": info, "events_prefix": want[rj["run"]]})
